@@ -59,7 +59,7 @@ def gen(tier, idx):
     scen = ['recur', 'recur', 'twin', 'unser'][idx % 4]
     if idx % 8 == 1: scen = 'reuse'
     if idx % 8 == 5: scen = 'names'
-    if idx % 8 == 3: scen = 'chdir'
+    if idx % 8 == 3 or idx % 16 == 12: scen = 'chdir'
     if idx % 16 == 7: scen = 'hashraises'
     if idx % 32 == 11: scen = 'jsonpurge'
     if idx % 32 == 27: scen = 'redecorate'
@@ -105,8 +105,10 @@ def gen(tier, idx):
                    exc=['TypeError', 'KeyError', 'ValueError', 'RuntimeError'][(idx // 16) % 4], calls=[r.randrange(4) for _ in range(6)])
     elif scen == 'chdir':
         # the archive is named RELATIVE to the current directory, and the program changes directory while the function is in use
-        cfg.update(algo=['lru', 'lfu', 'mru', 'rr', 'inf', 'no'][(idx // 8) % 6], safe=(idx // 48) % 2 == 1, purge=(idx // 96) % 2 == 1, maxsize=r.choice([1, 2, 3]),
-                   arch=['file', 'filejson', 'filesrc', 'dir', 'sql'][(idx // 8) % 5], calls=[r.randrange(6) for _ in range(16)], calls2=[r.randrange(6) for _ in range(16)])
+        j = idx // 16
+        cfg.update(algo=['lru', 'lfu', 'mru', 'rr', 'inf', 'no'][(j // 2) % 6], safe=(j // 5) % 2 == 1, purge=(j // 3) % 2 == 1, maxsize=r.choice([1, 2, 3]),
+                   arch=['file', 'filejson', 'filesrc', 'dir', 'sql'][j % 5], later=j % 2 == 1,
+                   calls=[r.randrange(6) for _ in range(16)], calls2=[r.randrange(6) for _ in range(16)])
     elif scen == 'recur':
         cfg.update(arch=r.choice(['none', 'dict', 'dict', 'file']), tops=[r.randrange(6, 15) for _ in range(r.choice([2, 3, 4]))])
     elif scen == 'reuse':
@@ -228,7 +230,7 @@ def run_case(cfg):
             for x in cfg['calls']:
                 if callf(f, x) not in ('v%d' % x, _Raised): bad('C01', 'chdir-wrong-result', 'g(%d) wrong before the directory change' % x)
             f.dump()
-            if cfg['seed'] % 2:
+            if cfg.get('later', cfg['seed'] % 2):
                 # a later session: a fresh decorator on a fresh handle that finds the store ALREADY THERE under its relative name
                 f = D(**dkw(cfg, kcache(archive=mk())))(g)
                 for x in cfg['calls'][:4]:
